@@ -45,6 +45,12 @@ def handle_write(chk, db, rule):
             pushes = [i for i, e in enumerate(p.events) if e.kind == 'call' and e.name == 'PushHandle']
             if len(pushes) > 1:
                 why.append('handle pushed %d times on one path' % len(pushes))
+            # whatever reference the channel returned is encoded: no value of the reference may end the write early
+            for i in pushes:
+                if p.status_facts().get(i) is True:
+                    later = [e for e in p.events[i + 1:] if e.kind == 'call' and encrules.enc_type(e) == 'long' and e.name == 'Write']
+                    if not later:
+                        why.append('a successfully pushed handle is not followed by the write of its reference (path returns %r)' % (p.ret,))
             for i in pushes:
                 if p.status_facts().get(i) is False and not (isinstance(p.ret, StatusVal) and p.ret.kind == 'errof' and p.ret.arg == i):
                     why.append('push failure is returned as %r' % (p.ret,))
@@ -62,6 +68,10 @@ def handle_read_errors(chk, db, rule):
         why = []
         for p in paths:
             gets = [i for i, e in enumerate(p.events) if e.kind == 'call' and e.name == 'GetHandle']
+            # every decoded reference of a handle whose type tag matched is resolved through the reader, whatever its value
+            refs = [i for i, e in enumerate(p.events) if e.kind == 'call' and e.name == 'Read' and encrules.enc_type(e) == 'long']
+            if refs and p.status_facts().get(refs[0]) is True and not gets and encrules.err_of(p) != 'UnexpectedHandleType':
+                why.append('a decoded reference is not resolved through GetHandle (path returns %r)' % (p.ret,))
             for i in gets:
                 if p.status_facts().get(i) is False and not (isinstance(p.ret, StatusVal) and p.ret.kind == 'errof' and p.ret.arg == i):
                     why.append('resolution failure is returned as %r' % (p.ret,))
@@ -191,6 +201,39 @@ def unique_handle(chk, db, rule):
                                                                                      ', repeated in a loop' if in_loop else ''), function=ir.fn_label(g))
                 if in_loop:
                     continue
+            # every value other than the empty one is released - also 0, which is a valid descriptor
+            released_all = True
+            rel_msg = ''
+            for val in (0, 5, 1 << 20):
+                wv = absx.World(db)
+                wv.cells[('X', 'v')] = val
+                got = []
+
+                def os_hook(it_, fr_, e_, obj_, args_, got=got):
+                    if obj_ is None and args_:
+                        a0 = args_[0]
+                        got.append(it_.read(a0, fr_, e_) if isinstance(a0, absx.Loc) else a0)
+                        return 0
+                    return NotImplemented
+                # the OS-level release calls Close() reaches (directly or through members of the same policy): external functions
+                # outside namespace std
+                names = set()
+                for h in [g] + [db.callee(g, c) for c in ir.calls(g['body'])]:
+                    if h is None or 'body' not in h or h.get('rec') != g.get('rec'):
+                        continue
+                    for c in ir.calls(h['body']):
+                        cal = c.get('callee') or {}
+                        if not cal.get('nop') and not cal.get('q', '').startswith('std::') and not cal.get('rec'):
+                            names.add(cal.get('n'))
+                try:
+                    absx.Interp(wv, hooks={n: os_hook for n in names if n}).run(g, None, [absx.Ptr(('X', 'v'))], None)
+                except absx.Unsupported:
+                    got = None
+                if got is not None and names and got != [val]:
+                    released_all = False
+                    rel_msg = 'Close() of the value %d releases %s' % (val, got)
+            if not released_all:
+                chk.bad(rule, facts.site(g) + ' ' + g['rec'].replace('nop::', '')[:40] + ' all-values', '%s::%s' % (g['rec'].replace('nop::', '')[:40], rel_msg), function=ir.fn_label(g))
             w = absx.World(db)
             w.cells[('X', 'v')] = 5
             it = absx.Interp(w)
